@@ -2,7 +2,7 @@
 from . import daemon
 from .common import finish
 
-SUM = ("evaluations", "distinct", "polls", "restarts", "trusted_in_sync_phase", "answers_in_sync_phase", "order_checks", "gap_checks", "msg_checks")
+SUM = ("evaluations", "distinct", "polls", "restarts", "reboots", "trusted_in_sync_phase", "answers_in_sync_phase", "order_checks", "gap_checks", "msg_checks")
 DICTS = ("answers_by_status", "outcomes_by_kind", "adversarial_instants", "client_errors")
 
 
@@ -32,7 +32,7 @@ def run(ctx):
         "evaluations": agg["evaluations"],
         "distinct_nontrivial": agg["distinct"],
         "rule": "each evaluation is one history of 20..200 polls in a virtual-time world (exact integer arithmetic): true time, a system clock whose error drifts at a piecewise-constant rate within the configured maximum (1/50/500 ppm; adversarially at the maximum in the direction of the error), initial error up to 2 s, uptime at daemon start in {3, 100, 999, 1e6} s, "
-                "a chronyd whose wire values satisfy |error| <= |offset| + dispersion + delay/2 (+PHC share) exactly on the decoded values (tight half of the time, either offset sign), answering late, unsynchronised, stale, with bad leap, future reference time, or not at all (outages to 1200 s), PHC added/unreadable, daemon restarts; "
+                "a chronyd whose wire values satisfy |error| <= |offset| + dispersion + delay/2 (+PHC share) exactly on the decoded values (tight half of the time, either offset sign), answering late, unsynchronised, stale, with bad leap, future reference time, or not at all (outages to 1200 s), PHC added/unreadable, daemon restarts (clean, or killed inside an update), machine reboots over a surviving segment file (monotonic clock back near zero, wall clock seconds off, clients return after the new daemon's first publication); "
                 "it drives, in lock-step, the real poller loop (one real iteration per poll), the real ShmUpdater/FSM on its own thread, the real ShmWriter on a tmpfs file and real ClockBoundClients (one attached, fresh ones) queried at random and adversarial instants (right after a publication, as_of+5 s -1/0 ns, void_after -1/0 ns, daemon down, first instant after a restart), a third of histories with a 4 ms coarse-clock tick; "
                 "oracle: for every answer with status Synchronized/FreeRunning, earliest - tol <= true time at the realtime read <= latest + tol, tol = 2 ns (+ drift x tick); distinct_nontrivial = distinct history seeds (every history contains trusted answers)",
         "samples": samples[:2],
@@ -42,6 +42,7 @@ def run(ctx):
         "outcomes_by_kind": agg["outcomes_by_kind"],
         "adversarial_instants": agg["adversarial_instants"],
         "restarts": agg["restarts"],
+        "machine_reboots_with_surviving_segment": agg.get("reboots", 0),
         "trusted_in_sync_phase": agg["trusted_in_sync_phase"],
         "answers_in_sync_phase": agg["answers_in_sync_phase"],
         "client_errors": agg["client_errors"],
